@@ -57,7 +57,7 @@ def plan(prop, tier, seed):
     if prop == "C06" and q:
         return [
             ("asan", f"n=3,e=2,m=2,x=2,w=1,ws=1,weak=1,plain=1,sameref=1,bare=0,keep=0,layouts={L(2)}", []),
-            ("asan", f"n=3,e=3,m=2,x=2,{CORE},layouts={L(2)}", []),
+            ("asan", f"n=3,e=3,m=2,x=2,plain=1,sameref=0,bare=0,keep=0,layouts={L(2)}", []),
             ("asan", f"n=3,e=2,m=2,x=2,w=1,ws=0,weak=1,plain=1,sameref=0,bare=0,keep=0,consume=1,layouts={L(2)}", []),
         ]
     if prop in ("C02", "C04", "C06"):
@@ -142,11 +142,13 @@ def plan(prop, tier, seed):
             return [
                 ("asan", f"n=3,e=2,m=2,x=2,plain=1,sameref=1,bare=0,keep=1,elide=1,layouts={L(2)}", []),
                 ("asan", f"n=2,e=3,m=2,x=2,plain=1,sameref=0,bare=0,keep=0,elide=2,layouts={L(4)}", []),
+                ("asan", f"n=2,e=2,m=2,x=2,w=1,ws=0,weak=1,plain=1,sameref=0,bare=0,keep=0,elide=1,consume=1,layouts={L(2)}", []),
             ]
         return [
             ("asan", f"n=3,e=3,m=2,x=2,plain=1,sameref=1,bare=0,keep=1,elide=1,layouts={L(2)}", []),
             ("asan", f"n=3,e=3,m=2,x=1,plain=1,sameref=0,bare=0,keep=0,elide=2,layouts={L(2)}", []),
             ("asan", f"n=2,e=4,m=3,x=2,plain=1,sameref=1,bare=0,keep=1,elide=2,layouts={L(3)}", []),
+            ("asan", f"n=3,e=2,m=2,x=2,w=1,ws=0,weak=1,plain=1,sameref=0,bare=0,keep=0,elide=1,consume=1,layouts={L(2)}", []),
         ]
     if prop == "C14":
         if q:
@@ -203,6 +205,8 @@ def attribute(clause, sig, history):
         if fam in ("dropown", "cloneown"):
             return "C16" if clause in ("K16", "K6", "K2", "K10", "CRASH") else "OTHER"
         return "C10" if clause in ("K1", "K2", "K3", "K4", "K5", "K6", "K10", "CRASH") and "loopback=1" not in sig else "OTHER"
+    if any(o.startswith("take:") and o.endswith(":elide") for o in ops):
+        return "C13" if clause in ("K13", "K1", "K2", "CRASH") else "OTHER"
     if any(o.split(":")[0] in CONSUMING for o in ops):
         return "C12" if clause in ("K1", "K2", "K3", "K4", "K5", "K6", "K8", "K12", "CRASH") and "loopback=1" not in sig else "OTHER"
     if any(o.startswith("take:") and o.endswith(":elide") for o in ops):
@@ -228,6 +232,10 @@ def attributed_to(prop, clause, sig, history):
     if prop == "C05" and clause == "CRASH" and primary == "C02" and ("Weak" in sig or uses_weak):
         # the allocation of an object must stay valid while Weak handles to it exist and
         # the strong side is still at work: a memory error in a history with Weak handles
+        return True
+    scripts = [o.split(":")[2].split(".")[0] for o in ops if o.startswith("arm:")]
+    if prop == "C10" and scripts and clause in ("K5", "K2", "CRASH") and all(f in ("upgraderoot", "dropweakroot", "upgradeown") for f in scripts):
+        # C10: destructors "may try to upgrade Weak handles to dying peers (getting None)"
         return True
     if prop == "C08" and clause in ("K8", "K12") and primary == "C12" and "table" in sig:
         # records involving an object must disappear when its allocation stops being a live
@@ -391,6 +399,16 @@ def run_property(prop, tier, seed, build):
             lines.append(f"  history: {wit['history']}  (layout {wit['layout']})")
     for kid, (k, cnt) in known_hits.items():
         lines.append(f"KNOWN-FINDING: property={prop} {k['what']} ({cnt} histories in this run; witness {k['witness']})")
+    extra_cov = {}
+    if prop == "C16":
+        import engines
+        nbad, big_lines, extra_cov = engines.run_c16_big(build)
+        if nbad is None:
+            machinery.append("large-group sweep for C16 failed to run")
+        elif nbad:
+            n_viol += nbad
+            status = 1
+            lines += big_lines
     if machinery:
         for m in machinery[:10]:
             print("MACHINERY:", m)
@@ -453,6 +471,7 @@ def run_property(prop, tier, seed, build):
         "violations": n_viol,
     }
     cov["expected_process_aborts_observed"] = sum(s.get("expected_aborts", 0) for s in summaries)
+    cov.update(extra_cov)
     if LEVEL.get(prop) == "fault_enumeration":
         ev["coverage"]["rule"] = "every (reachable state, object) pair of the bounded space gets a panicking destructor armed (exactly one per history), then every continuation; " + cov["rule"]
     os.makedirs(EVIDENCE, exist_ok=True)
